@@ -519,9 +519,10 @@ def l2_stateless(ctx, base, kind, rule, expr="Cases", consts=None, sig_keys=(), 
     ctx.traces += n
     ctx.evaluations += n
     distinct = set()
+    picks = {max(0, n // 5), n // 2, max(0, n - n // 5 - 1)}
     for i, line in enumerate(open(out)):
         distinct.add(line)
-        if i < 3:
+        if i in picks:
             ctx.samples.append(json.loads(line))
     ctx.distinct += len(distinct)
     ctx.rules.append(rule)
@@ -625,6 +626,16 @@ def check_C17(ctx):
                  expr="ClientCases(%d)" % n, sig_keys=("fam", "base", "kind"))
 
 
+def check_C13(ctx):
+    ctx.exhaustive = True
+    l2_stateless(ctx, "Creds", "creds",
+                 "Creds!Cases: {in-process, HTTP} x {http, https (httptest TLS server)} x credentials requiring security or not x "
+                 "credential result {none, metadata, empty map, error} x caller metadata {none, disjoint, overlapping keys} x "
+                 "{unary, streaming} x 0..2 grpc.Peer options; a counting RoundTripper, the handler's incoming metadata and peer "
+                 "and the peer targets are recorded",
+                 sig_keys=("tr", "scheme", "kind", "creds", "require"))
+
+
 def check_C11(ctx):
     ctx.exhaustive = True
     l2_stateless(ctx, "HttpGate", "gate",
@@ -640,5 +651,5 @@ def check_C11(ctx):
 CHECKS = {
     "C01": check_C01, "C02": check_C02, "C03": check_C03, "C04": check_C04, "C05": check_C05,
     "C08": check_C08, "C20": check_C20,
-    "C14": check_C14, "C11": check_C11, "C07": check_C07, "C09": check_C09, "C12": check_C12, "C15": check_C15, "C16": check_C16, "C17": check_C17,
+    "C14": check_C14, "C11": check_C11, "C07": check_C07, "C09": check_C09, "C12": check_C12, "C15": check_C15, "C16": check_C16, "C17": check_C17, "C13": check_C13,
 }
